@@ -473,8 +473,14 @@ func raceRelevant(id, rep string) bool {
 		return strings.Contains(rep, "pkg/http2/hpack.")
 	}
 	if id == "C06" {
-		// state shared between connections: both accesses happen in code of fingerproxy
-		return strings.Count(raceSig(rep), "~") == 1
+		// state shared between connections: the same function of fingerproxy on both sides (two
+		// connections executing the same code; the race worker keeps one request in flight per
+		// connection, so two handlers of one connection do not meet).  A race between two
+		// roles of ONE connection - e.g. the serve loop's SetMaxDynamicTableSize against the
+		// frame writer's WriteField on the connection's HPACK encoder, present in the pinned
+		// tree and upstream (observation O9) - is outside this property.
+		parts := strings.Split(strings.TrimPrefix(raceSig(rep), "race:"), "~")
+		return len(parts) == 2 && parts[0] == parts[1]
 	}
 	for _, k := range []string{"pkg/metadata.", "pkg/fingerprint.", "(*serverConn).processFrame"} {
 		if strings.Contains(rep, k) {
